@@ -8,6 +8,8 @@ import IcontractModel.Chain
 import IcontractModel.Spec.Dnf
 import IcontractModel.Spec.Post
 import IcontractModel.Spec.PyBind
+import IcontractModel.Decor
+import IcontractModel.Config
 open Lean Icontract
 
 deriving instance FromJson, ToJson for Exc
@@ -175,6 +177,67 @@ def runChecker (c : CheckerCase) : Json :=
       ("oldExpected", jArr ((sortPairs (old.map fun p => (p.1, jNat p.2))).map fun p => jArr [jStr p.1, p.2]))])
   ]
 
+/-! ## definition-time domain -/
+
+deriving instance FromJson, ToJson for ErrArg
+deriving instance FromJson, ToJson for Below
+deriving instance FromJson, ToJson for Mode
+deriving instance FromJson, ToJson for EnvSlow
+deriving instance FromJson, ToJson for EnabledArg
+deriving instance FromJson, ToJson for DecoKind
+
+structure DefineCase where
+  what : String
+  deco : String
+  enabled : Bool
+  err : ErrArg
+  condArgs : List String
+  condMandatory : List String
+  coroFn : Bool
+  name : Option String
+  captureArgs : List String
+  below : Below
+  sig : List Param
+deriving FromJson
+
+def defOut {α} (r : Except DefErr α) : Json :=
+  match r with
+  | .ok _ => jArr [jStr "ok"]
+  | .error (.valueError _) => jArr [jStr "raise", jStr "ValueError"]
+  | .error (.typeError _) => jArr [jStr "raise", jStr "TypeError"]
+
+def runDefine (c : DefineCase) : Json :=
+  let out : Json :=
+    match c.what with
+    | "error_arg" =>
+      (match c.deco with
+       | "require" => defOut (requireInit c.enabled c.err)
+       | "ensure" => defOut (ensureInit c.enabled c.err)
+       | _ => defOut (invariantInit c.enabled c.err { args := ["self"], mandatory := ["self"], coroFn := false }))
+    | "invariant_cond" =>
+      defOut (invariantInit c.enabled .none { args := c.condArgs, mandatory := c.condMandatory, coroFn := c.coroFn })
+    | "snapshot_name" => defOut (snapshotInit c.enabled c.name c.captureArgs)
+    | "snapshot_apply" =>
+      (match snapshotInit c.enabled c.name c.captureArgs with
+       | .ok n => defOut (snapshotApply n c.below)
+       | .error e => defOut (Except.error e : Except DefErr Unit))
+    | "reserved_param" => defOut (checkReservedParams c.sig)
+    | _ => jArr [jStr "unknown"]
+  Json.mkObj [("out", out)]
+
+structure ConfigCase where
+  mode : Mode
+  env : EnvSlow
+  arg : EnabledArg
+  deco : DecoKind
+deriving FromJson
+
+def runConfig (c : ConfigCase) : Json :=
+  let en := enabledValue c.mode c.env c.arg
+  let a := applyDecorator c.deco en
+  Json.mkObj [("enabled", boolJson en), ("sameObject", boolJson a.sameObject),
+    ("attrsAdded", boolJson a.attrsAdded), ("conditionStored", boolJson a.conditionStored)]
+
 /-- a sequence of calls in one context: the in-progress set is threaded from step to step -/
 def runCheckerSeq (steps : List CheckerCase) : Json :=
   let rec go (s : Option (List Id)) : List CheckerCase → List Json
@@ -197,6 +260,14 @@ def handle (line : String) : String :=
       match (fromJson? j : Except String CheckerCase) with
       | .ok c => (runChecker c).compress
       | .error e => (Json.mkObj [("error", jStr s!"decode checker: {e}")]).compress
+    | .ok "define" =>
+      match (fromJson? j : Except String DefineCase) with
+      | .ok c => (runDefine c).compress
+      | .error e => (Json.mkObj [("error", jStr s!"decode define: {e}")]).compress
+    | .ok "config" =>
+      match (fromJson? j : Except String ConfigCase) with
+      | .ok c => (runConfig c).compress
+      | .error e => (Json.mkObj [("error", jStr s!"decode config: {e}")]).compress
     | .ok "checkerseq" =>
       match j.getObjVal? "steps" with
       | .ok (Json.arr steps) =>
